@@ -356,6 +356,12 @@ class Driver:
                             'now-now': StopMode.REQUEST_NOW_NOW,
                             'kill': StopMode.REQUEST_KILL,
                             None: None}[args.get('mode')]
+        if name == 'reload_workflow' and act.get('new_flow'):
+            # a changed definition is installed before the reload request
+            import os as _os
+            with open(_os.path.join(self.home, 'cylc-run', WF_NAME,
+                                    'flow.cylc'), 'w') as f:
+                f.write(act['new_flow'])
         if name == 'broadcast':
             import types
             args['mode'] = types.SimpleNamespace(value=args['mode'])
